@@ -66,7 +66,8 @@ Inductive api :=
 | Clone | Drop | Send (k : tid) | GetMut | Unwrap | Read | CountOp | Merge | Register
 | Exit           (* drop everything held, finish_thread_merge, thread ends (with_explicit_merge) *)
 | Die            (* drop everything held, thread ends without merging                              *)
-| Await (k : nat).   (* harness-level: wait until the thread holds >= k references                *)
+| Await (k : nat)    (* harness-level: wait until the thread holds >= k references                *)
+| MakeMut.          (* BiasedRc::make_mut: unique access, or replace this reference by a fresh copy *)
 
 Inductive qmap := QReg | QUnreg.               (* QueueHandle.map / QueueHandle.unregistered       *)
 Inductive mph := PUnreg | PReg | PFin.         (* run_explicit_merge phase 1 / 2, finish_thread_merge *)
@@ -83,7 +84,8 @@ Inductive pc :=
 | MrgFin (ph : mph) (n : nat) (new : word) | MrgCas2 (ph : mph) (n : nat) (old : word)
 | MrgFin2 (ph : mph) (n : nat) (new : word)
 | CntLoad | CntRdOwner | CntRdBiased
-| RegStep.
+| RegStep
+| UmRdOwner | UmNoneLoad | UmNoneCas (old : word) | UmOwnRdBiased | UmOwnLoad.   (* has_unique_ref inside make_mut *)
 
 (* yield-site numbers of crates/steel-rc/src/verif.rs `site` *)
 Definition site_of (p : pc) : nat :=
@@ -99,11 +101,13 @@ Definition site_of (p : pc) : nat :=
   | MrgLoad _ _ => 63 | MrgCas _ _ _ => 64 | MrgFin _ _ _ => 65 | MrgCas2 _ _ _ => 67 | MrgFin2 _ _ _ => 68
   | CntLoad => 70 | CntRdOwner => 71 | CntRdBiased => 72
   | RegStep => 80
+  | UmRdOwner => 40 | UmNoneLoad => 41 | UmNoneCas _ => 42 | UmOwnRdBiased => 43 | UmOwnLoad => 44
   end%nat.
 
 (* per-operation results (the observables of the correspondence) *)
 Inductive res :=
-| RNa (o : api) | ROk (o : api) | RSome | RNone | RUnwOk | RUnwErr | RCount (z : Z) | RMerge (n : nat).
+| RNa (o : api) | ROk (o : api) | RSome | RNone | RUnwOk | RUnwErr | RCount (z : Z) | RMerge (n : nat)
+| RMmUnique | RMmCloned.
 
 Record thr := { held : nat; pcv : pc; prog : list api; log : list res; macc : nat }.
 
@@ -257,6 +261,7 @@ Definition start_op (t : tid) (x : thr) (s : st) : option st :=
              else Some (acc (on_thr t (set_pc_log DecRdOwner (ROk Drop)) s))
     | Await k => if Nat.leb k (held x) then Some (on_thr t (fun y => set_pc_log Idle (ROk op) (pop y)) s)
                  else Some s
+    | MakeMut => if Nat.eqb (held x) 0 then na else Some (acc (on_thr t (fun y => set_pc UmRdOwner (pop y)) s))
     end
   end.
 
@@ -412,6 +417,27 @@ Definition step (c : config) (t : tid) (s : st) : option st :=
     | CntRdBiased => Some (acc (go_log t Idle (RCount (biased s)) s))
     (* ---- register_thread (L659-665) *)
     | RegStep => Some (go t Idle (if is_reg s t then s else w_reg (t :: registered s) s))
+    (* ---- make_mut (L1132-1146): has_unique_ref; when not unique `*this = Self::new(T::clone(this.data()))`
+            reads the payload and drops this reference (the fresh value is a different box) *)
+    | UmRdOwner =>
+        match owner s with
+        | None => Some (acc (go t UmNoneLoad s))
+        | Some o => if Nat.eqb o t then Some (acc (go t UmOwnRdBiased s))
+                    else Some (acc (go_log t DecRdOwner RMmCloned s))
+        end
+    | UmNoneLoad =>
+        if c_unq_cas c then Some (acc (go t (UmNoneCas (shared s)) s))
+        else if cnt (shared s) =? 1 then Some (excl_check (acc (go_log t Idle RMmUnique s)))
+        else Some (acc (go_log t DecRdOwner RMmCloned s))
+    | UmNoneCas old =>
+        if word_eqb (with_cnt 1 old) (shared s)
+        then Some (excl_check (acc (go_log t Idle RMmUnique (w_shared (with_cnt 0 old) s))))
+        else Some (acc (go_log t DecRdOwner RMmCloned s))
+    | UmOwnRdBiased =>
+        if biased s =? 1 then Some (acc (go t UmOwnLoad s)) else Some (acc (go_log t DecRdOwner RMmCloned s))
+    | UmOwnLoad =>
+        if cnt (shared s) =? 0 then Some (excl_check (acc (go_log t Idle RMmUnique s)))
+        else Some (acc (go_log t DecRdOwner RMmCloned s))
     end
   end.
 
@@ -446,7 +472,7 @@ Definition api_str (o : api) : string :=
   match o with
   | Clone => "clone" | Drop => "drop" | Send _ => "send" | GetMut => "get_mut" | Unwrap => "unwrap"
   | Read => "read" | CountOp => "count" | Merge => "merge" | Register => "register" | Exit => "exit"
-  | Die => "die" | Await _ => "await"
+  | Die => "die" | Await _ => "await" | MakeMut => "make_mut"
   end.
 Definition res_str (r : res) : string :=
   match r with
@@ -456,6 +482,7 @@ Definition res_str (r : res) : string :=
   | RUnwOk => "unwrap:ok" | RUnwErr => "unwrap:err"
   | RCount z => "count:" ++ z_str z
   | RMerge n => "merge:" ++ nat_str n
+  | RMmUnique => "make_mut:unique" | RMmCloned => "make_mut:cloned"
   end.
 Fixpoint join (sep : string) (l : list string) : string :=
   match l with
